@@ -56,8 +56,12 @@ def nl_cases(draw):
         via_pilot = True
         for _ in range(draw(st.integers(1, 3))):
             ops.insert(draw(st.integers(1, len(ops))), ['pilot_update'])
+    # the Fork / Debug resource managers name every (virtual) node after the host: nodes are told
+    # apart by their index only
+    same = draw(st.integers(0, 2)) == 0
     return {'kind': 'nodelist', 'n': n, 'c': c, 'g': g, 'lfs': lfs, 'mem': mem,
-            'bc': bc, 'bg': bg, 'ops': ops, 'numa': numa, 'via_pilot': via_pilot, 'idx': idx}
+            'bc': bc, 'bg': bg, 'ops': ops, 'numa': numa, 'via_pilot': via_pilot, 'idx': idx,
+            'same_names': same}
 
 
 @st.composite
@@ -104,8 +108,11 @@ def run_nodelist(case):
         idx = list(range(n))
     if idx != list(range(n)):
         stats['index_gaps'] = 1
-    name_of = {k: 'n%02d' % k for k in idx}
-    raw = [{'name': 'n%02d' % i, 'index': i,
+    same = bool(case.get('same_names'))
+    if same:
+        stats['same_names'] = 1
+    name_of = {k: ('localhost' if same else 'n%02d' % k) for k in idx}
+    raw = [{'name': name_of[i], 'index': i,
             'cores': [rpc.DOWN if k in bc else rpc.FREE for k in range(c)],
             'gpus': [rpc.DOWN if k in bg else rpc.FREE for k in range(g)],
             'lfs': case['lfs'], 'mem': case['mem']} for i in idx]
